@@ -177,6 +177,11 @@ def run_property(prop, root=None, tier="quick"):
         mod.run(index, rep, tier)
     except AnalysisError as e:
         rep.errors.append(str(e))
+    try:
+        from .rules import common
+        common.generic_rules(prop, index, rep)
+    except AnalysisError as e:
+        rep.errors.append(str(e))
     return rep, time.time() - t0
 
 
